@@ -37,6 +37,17 @@ INFO = {
  "C16_3": ("INDEX_CODE became a defaultdict and is indexed with []: reading an unknown symbol inserts it and the base len(INDEX_CODE) grows", "a multi-symbol index with a non-index symbol in a lower slot, or any earlier decode with a non-index symbol in an index slot", True, "first run ended with a harness error: the instrumented copy of INDEX_CODE lost the default factory and translator validation flagged the disagreement; caught after wrapped containers keep a defaultdict's factory"),
  "C17_3": ("writer tracks token end positions with a running counter that forgets the '%' of two-digit ring labels", "ten or more ring closures in the output", True, "missed (needs >= 10 rings); caught after the 'many rings' part (8-10 three-membered rings + free symbols) was added"),
  "C18_3": ("per-fragment fast path overwrites the compatible flag: the first fragment without legacy symbols switches modernisation off for the rest", "several fragments, a modern-only fragment before a legacy one", True, "first run ended with a harness error: `\"xpl\" in s` on the M-TOK fragment (a list) did not behave like a string; caught after fragments became string-like (TokFrag) and a multi-fragment alphabet was added to C18"),
+ "C01_4": ("`table.get(key) or table['?']` once more (fourth independent occurrence)", "capacity-0 entry", False, ""),
+ "C02_4": ("_derive_mol_from_symbols returns min(n_derived, max_derive): a nested branch that overruns its budget (its last in-budget symbol is a ring/branch symbol whose index lies past the budget) is under-counted", "three levels: chain, branch, nested branch ending in a ring/branch symbol; 8 symbols at least", True, "missed at N<=4 / 6; caught after the nested-branch template (atom, branch, index, nested branch/ring, index, free symbols) was added to C02"),
+ "C04_4": ("_ring_bonds_to_selfies treats equal marks on both ends as 'no marks'", "a ring closure with the same / or \\ on both digits", False, ""),
+ "C05_4": ("un-bracketed aromatic atoms are pruned only at their lowest valence", "aromatic s(=O) / p(=O)(R)", True, "missed in the quick tier (s(=O) was only among the thorough kinds, and O-KEK had no rule for S(IV)/P(V)); caught after s(=O) was added to the quick kinds and the rule was extended"),
+ "C06_4": ("strict check examines only the most heavily bonded atom per (element, charge), ignoring explicit H", "an over-full H-bearing atom next to a legal atom of the same element and charge with at least as many bonds", False, ""),
+ "C08_4": ("modernize_symbol: early exit for all-lower-case bodies replaces the aromatic check", "compatible=True and an aromatic legacy symbol containing an upper-case H ([nHexpl])", True, "missed ([nHexpl] was not among C08's malformed legacy symbols); caught after [nHexpl], [=c@@Hexpl], [cH1expl] were added"),
+ "C09_4": ("has_bond no longer orders its arguments", "a ring digit opened inside a branch and closed on the branch's parent atom, both aromatic (c(c1)1)", True, "missed (no such closure among C09's inputs at N<=3); caught after ring-closure syntax templates (opened in a branch / closed on the parent, doubled and repeated closures) were added"),
+ "C10_4": ("number of index symbols chosen with `index <= base ** 2`", "a ring span or branch length of exactly 256", True, "missed (spacers at 18 and 256 atoms did not hit Q = 256); caught after boundary templates Q = 14..17 and 254..257 for rings and branches were added (C16 part A catches the same slip at n = 256)"),
+ "C12_4": ("validation split into a key pass and a value pass with the assignment in between", "a table whose only defect is a bad capacity", False, ""),
+ "C14_4": ("split_selfies uses a regex whose '.' does not match newline", "a symbol whose text contains a newline", False, ""),
+ "C15_4": ("missing-'.' test `not dot_index` is also true for index 0", "a vocabulary mapping '.' to 0 and a string containing '.'", False, ""),
 }
 only = sys.argv[1:]
 for label in sorted(os.listdir(os.path.join(HERE, "seeded"))):
